@@ -1,7 +1,7 @@
 (* Props/C11Src.v — property C11 for step functions GENERATED FROM THE SOURCE TEXT of isobar/pattern/chance.py
    (harness/gen_tables_stepchance.py -> Generated/TablesStepchance.v on every run; ties in Pat/ChanceSrc.v; docs/TRANSLATOR.md).
-   src_white / src_coin / src_flipflop / src_skip / src_pshuffle are the machines of Pat/Chance.v with the step translated from
-   PWhite / PCoin / PFlipFlop / PSkip / PShuffle.__next__ (specialised to the domain of the machine: scalar parameters, the
+   src_white / src_coin / src_flipflop / src_skip / src_pchoice / src_pshuffle are the machines of Pat/Chance.v with the step translated from
+   PWhite / PCoin / PFlipFlop / PSkip / PChoice / PShuffle.__next__ (specialised to the domain of the machine: scalar parameters, the
    non-`regular` mode, a finite input); the draws `self.rng.uniform(..)`, `self.rng.shuffle(..)` are the generator-oracle calls.
    An edit of one of these bodies that changes the translated term breaks Pat/ChanceSrc.v and with it these theorems: a broken
    proof obligation of C11.  Lemmas: Pat/ChanceSrc.v, Pat/ChanceSrcProofs.v. *)
@@ -28,12 +28,16 @@ Section Ties.
   Theorem C11_src_pshuffle_step : forall repeats s g,
     pshuffle_step R r_below repeats s g = src_PShuffle_step R r_below repeats s g.
   Proof. exact (PShuffle_step_src R r_below). Qed.
+  Theorem C11_src_choice_step : forall values ws s g,
+    choice_step R r_unit r_below values ws s g = src_PChoice_step R r_unit r_below values ws s g.
+  Proof. exact (PChoice_step_src R r_unit r_below). Qed.
 End Ties.
 Print Assumptions C11_src_white_step.
 Print Assumptions C11_src_coin_step.
 Print Assumptions C11_src_flipflop_step.
 Print Assumptions C11_src_skip_step.
 Print Assumptions C11_src_pshuffle_step.
+Print Assumptions C11_src_choice_step.
 
 (** ranges and supports, for all generators respecting the contract, all seeds, all scripts, all steps *)
 Section InRange.
@@ -67,6 +71,10 @@ Section InRange.
            (run R r_seed (src_pshuffle R r_below values repeats) (fresh R r_seed (src_pshuffle R r_below values repeats) s) ops).
   Proof. intros. eapply src_pshuffle_support; eauto. Qed.
 
+  Theorem C11_src_choice_support : forall values ws ops i,
+    Forall (from_values values) (run R r_seed (src_pchoice R r_unit r_below values ws) i ops).
+  Proof. intros. eapply src_choice_support; eauto. Qed.
+
   Theorem C11_src_skip_only_rests : forall input play s n j r,
     nth_error (run R r_seed (src_skip R r_unit input play) (fresh R r_seed (src_skip R r_unit input play) s) (repeat Next n)) j = Some r ->
     match nth_error input j with
@@ -81,3 +89,4 @@ Print Assumptions C11_src_coin.
 Print Assumptions C11_src_flipflop.
 Print Assumptions C11_src_pshuffle_support.
 Print Assumptions C11_src_skip_only_rests.
+Print Assumptions C11_src_choice_support.
